@@ -38,5 +38,5 @@ Proof.
   unfold to_list, iter_list.
   first [ match goal with |- context [foldM ?F _ _] => rewrite (foldM_flags F) by flags_pointwise end
         | match goal with |- context [loopM ?F _ _] => rewrite (loopM_flags F) by flags_pointwise end ].
-  cbn [bind orb]. unfold is_sortable. reflexivity.
+  cbn [bind orb]. unfold is_sortable. first [reflexivity | rewrite andb_comm; reflexivity].
 Qed.
